@@ -124,6 +124,8 @@ TSConfs == [inner2Emb |-> [Inner2 |-> [type |-> "object", properties |-> [X |-> 
             innerTyped |-> [Inner |-> [type |-> "object", description |-> "custom"]],
             innerUntyped |-> [Inner |-> [description |-> "custom"]],
             innerTypes |-> [Inner |-> [types |-> <<"object", "string">>]],
+            \* (the JSON type of the values LAST in the list; three types: lists a decoder leaves with spare capacity)
+            innerTypesLast |-> [Inner |-> [types |-> <<"string", "number", "object">>]],
             embOverride |-> [Emb |-> [type |-> "object", properties |-> [q |-> [type |-> "string"], p |-> [type |-> "integer"]]]],
             \* entries for types that have a built-in translation (time.Time, *big.Int): the entry wins
             stdOverride |-> ("std:time" :> [type |-> "string", format |-> "date-time"]) @@ ("std:bigint" :> [type |-> "integer"])]
@@ -141,7 +143,7 @@ ODesc == {Struct("S", <<DescF("A", Prim("int8"), d), Field("B", "b", {"omitempty
                Slice(Struct("S", <<DescF("A", Ptr(Bad("complex")), "z"), DescF("B", Prim("string"), "kept")>>)),
                Struct("S", <<DescF("W", Struct("Wrap", <<DescF("F", Bad("func"), "cb"), Field("V", "", {}, Prim("int8"))>>), "wrapped")>>)}
 OCases == {[t |-> t, ign |-> ign, tsn |-> "none"] : t \in ODesc, ign \in BOOLEAN} \cup {[t |-> t, ign |-> ign, tsn |-> "none"] : t \in UNION {OBad, ORec, OMany}, ign \in BOOLEAN}
-          \cup {[t |-> t, ign |-> FALSE, tsn |-> c] : t \in OTS, c \in {"innerTyped", "innerUntyped", "innerTypes", "embOverride"}}
+          \cup {[t |-> t, ign |-> FALSE, tsn |-> c] : t \in OTS, c \in {"innerTyped", "innerUntyped", "innerTypes", "innerTypesLast", "embOverride"}}
           \cup {[t |-> t, ign |-> FALSE, tsn |-> c] : t \in OTS2, c \in {"inner2Emb", "none"}}
           \cup {[t |-> t, ign |-> FALSE, tsn |-> c] : t \in OTSStd, c \in {"stdOverride", "none"}}
 
@@ -181,9 +183,15 @@ SpecEq == (phase = "done" /\ ~Exempt) => InferCode(cs) = InferSpec(cs)
 Emit == phase = "done" =>
   IF Family = "O" THEN
     LET r == InferOpt(cs.t, cs.ign, TSConfs[cs.tsn])
+        \* values of the type against the schema the options produce (C04 with ForOptions): wherever the SPECIFIED
+        \* result accepts the encoding, the real one must (entries for user struct types only)
+        withVals == IsOk(r) /\ cs.tsn \in {"innerTyped", "innerUntyped", "innerTypes", "innerTypesLast"}
+        vs == IF withVals THEN SetToSeq(Values(cs.t, 0)) ELSE <<>>
     IN PrintT(<<"CASE", ToJson([t |-> cs.t, fam |-> "O", ign |-> cs.ign, tsn |-> cs.tsn, ts |-> TSConfs[cs.tsn],
                                 res |-> IF "err" \in DOMAIN r THEN "err" ELSE IF "drop" \in DOMAIN r THEN "drop" ELSE "ok",
-                                spec |-> IF IsOk(r) THEN r.s ELSE EmptyFcn])>>)
+                                spec |-> IF IsOk(r) THEN r.s ELSE EmptyFcn,
+                                vals |-> vs, enc |-> [i \in DOMAIN vs |-> Enc(cs.t, vs[i])],
+                                ok |-> [i \in DOMAIN vs |-> Accepts(r.s, Enc(cs.t, vs[i]))]])>>)
   ELSE
   PrintT(<<"CASE", ToJson([t |-> cs, fam |-> Family, spec |-> InferSpec(cs), code |-> InferCode(cs),
                            vals |-> Vals, enc |-> [i \in DOMAIN Vals |-> Enc(cs, Vals[i])],
